@@ -196,7 +196,7 @@ class MutateValue(Contract):
                 ("transform", self.callable_or_none(st, eng.to_val(st, c.transform))),
                 ("expected_type", self.annotation(st, eng.to_val(st, c.expected_type))),
                 # the keyword dictionaries are objects of their own (built by the generated wrapper), not the value being updated
-                ("own-dicts", z3.And(*[z3.Implies(z3.And(is_ref(d), is_ref(y)), a_of(d) != a_of(y))
+                ("own-dicts", z3.And(*[z3.Implies(z3.And(inplace, is_ref(d), is_ref(y)), a_of(d) != a_of(y))
                                        for d in (attrs, ats) for x in (eng.to_val(st, c.old_value), eng.to_val(st, c.new_value))
                                        for y in (x, unwrap(st, x))]))]
 
